@@ -59,10 +59,18 @@ func c17NewSink() *c17Sink {
 	return s
 }
 
+// c17TimedOut: after the first timeout (a broken tree) later waits give up quickly.
+var c17TimedOut bool
+
 func c17Wait(what string, cond func() bool) {
-	deadline := time.Now().Add(8 * time.Second)
+	limit := 8 * time.Second
+	if c17TimedOut {
+		limit = 100 * time.Millisecond
+	}
+	deadline := time.Now().Add(limit)
 	for !cond() {
 		if time.Now().After(deadline) {
+			c17TimedOut = true
 			panic("timeout waiting for " + what)
 		}
 		time.Sleep(200 * time.Microsecond)
@@ -81,4 +89,3 @@ func c17ReadLoops() int {
 	}
 	return n
 }
-
